@@ -70,13 +70,14 @@ def watcher (uid : Nat) : P Watcher := do
   let maxRetry ← int
   let sendHup ← bool
   let maxAge ← nat
+  let onDemand ← bool
   let nh ← nat
   let hooks ← rep nh hook
   let base : Watcher := { name := name }
   pure { base with
     np := np, singleton := singleton, respawn := respawn, warmup := warmup, graceful := graceful,
     stopSignal := stopSignal, stopChildren := stopChildren, priority := priority,
-    autostart := autostart, maxRetry := maxRetry, sendHup := sendHup, maxAge := maxAge, hooks := hooks,
+    autostart := autostart, maxRetry := maxRetry, sendHup := sendHup, maxAge := maxAge, onDemand := onDemand, hooks := hooks,
     ignoreFail := base.ignoreFail ++ (hooks.filter (·.2.ignore)).map (·.1), uid := uid }
 
 def watchers : Nat → P (List Watcher)
@@ -104,6 +105,7 @@ def op : P Op := do
   | "die" => do let p ← nat; let s ← nat; pure (.die p s)
   | "xkill" => do let p ← nat; let s ← nat; pure (.xkill p s)
   | "fault" => do let k ← nat; let p ← nat; let s ← nat; pure (.fault k p s)
+  | "sockev" => do let b ← bool; pure (.sockev b)
   | _ => failure
 
 def scenario : P (State × List Op) := do
